@@ -682,6 +682,13 @@ fn validate(cx: &mut Ctx, a: &Bytecode, ta: &Tables, ea: usize, b: &Bytecode, tb
     let t0 = std::time::Instant::now();
     let ans = cx.model.ask(&format!("(check-renaming {ea} {eb})"));
     let dt = t0.elapsed().as_millis();
+    if ans.starts_with("ok") {
+        if ans.contains("strict=true") {
+            cx.ev.hit("validated:strict");
+        } else {
+            cx.ev.hit("validated:non-strict");
+        }
+    }
     if let Some(x) = ans.split_whitespace().find_map(|w| w.strip_prefix("exempt=")) {
         let n: u64 = x.parse().unwrap_or(0);
         if n > 0 {
